@@ -13,7 +13,7 @@ variable {K1 K2 : Type} [DecidableEq K1] [DecidableEq K2]
 
 /-- what relates the two DAGs: as `SimHyp`, but the right-hand key may be absent (the left-hand key
 is total) -/
-structure SimHypK (φ : Nat → Nat) (D : Nat → Prop) (ch1 ch2 : Nat → List Nat)
+structure SimHypK (φ : Nat → Nat) (D : Nat → Prop) (q : Nat → Bool) (ch1 ch2 : Nat → List Nat)
     (key1 : Nat → Option K1) (key2 : Nat → Option K2) (rk1 rk2 : Nat → Nat) : Prop where
   ch : ∀ t, D t → ch1 (φ t) = (ch2 t).map φ
   closed : ∀ t, D t → ∀ c ∈ ch2 t, D c
@@ -21,11 +21,13 @@ structure SimHypK (φ : Nat → Nat) (D : Nat → Prop) (ch1 ch2 : Nat → List 
   inj : ∀ t t', D t → D t' → ∀ k1 k1' k2 k2', key1 (φ t) = some k1 → key1 (φ t') = some k1' →
     key2 t = some k2 → key2 t' = some k2' → (k1 = k1' ↔ k2 = k2')
   klInj : ∀ t t', D t → D t' → key2 t = none → key1 (φ t') = key1 (φ t) → t' = t
+  klq : ∀ t, D t → key2 t = none → q t = true
   rk1 : ∀ t, D t → ∀ c ∈ ch2 t, rk1 (φ c) < rk1 (φ t)
   rk2 : ∀ t, D t → ∀ c ∈ ch2 t, rk2 c < rk2 t
 
-/-- some node was yielded twice -/
-def DupN {K : Type} (s : WalkSt K) : Prop := ¬ (s.outs.toList.map (·.node)).Nodup
+/-- some node in `q` was yielded twice -/
+def DupN {K : Type} (q : Nat → Bool) (s : WalkSt K) : Prop :=
+  ¬ ((s.outs.toList.map (·.node)).filter q).Nodup
 
 structure SimK (φ : Nat → Nat) (D : Nat → Prop) (key1 : Nat → Option K1) (key2 : Nat → Option K2)
     (s1 : WalkSt K1) (s2 : WalkSt K2) : Prop where
@@ -38,23 +40,23 @@ structure SimK (φ : Nat → Nat) (D : Nat → Prop) (key1 : Nat → Option K1) 
     t ∈ s2.outs.toList.map (·.node)
 
 section single
-variable {K : Type} [DecidableEq K]
+variable {K : Type} [DecidableEq K] {q : Nat → Bool}
 
 omit [DecidableEq K] in
-theorem dup_ext {s s' : WalkSt K} (h : DupN s) (new : List WOut)
-    (e : s'.outs.toList = s.outs.toList ++ new) : DupN s' := by
+theorem dup_ext {s s' : WalkSt K} (h : DupN q s) (new : List WOut)
+    (e : s'.outs.toList = s.outs.toList ++ new) : DupN q s' := by
   unfold DupN at h ⊢
-  rw [e, List.map_append]
+  rw [e, List.map_append, List.filter_append]
   intro hn
   exact h (List.nodup_append.mp hn).1
 
-theorem dup_walk (ch : Nat → List Nat) (key : Nat → Option K) (f t : Nat) {s : WalkSt K} (h : DupN s) :
-    DupN (walk ch key f t s).1 := by
+theorem dup_walk (ch : Nat → List Nat) (key : Nat → Option K) (f t : Nat) {s : WalkSt K} (h : DupN q s) :
+    DupN q (walk ch key f t s).1 := by
   obtain ⟨new, e, _⟩ := (walk_ext ch key (fun _ => True) (fun _ _ _ _ => trivial) f t s trivial).outs
   exact dup_ext h new e
 
-theorem dup_fin (key : Nat → Option K) (t : Nat) (li ri : Option Nat) {s : WalkSt K} (h : DupN s) :
-    DupN (walkFin key t li ri s).1 := by
+theorem dup_fin (key : Nat → Option K) (t : Nat) (li ri : Option Nat) {s : WalkSt K} (h : DupN q s) :
+    DupN q (walkFin key t li ri s).1 := by
   obtain ⟨new, e, _⟩ := (ext_fin key (fun _ => True) t trivial li ri s).outs
   exact dup_ext h new e
 
@@ -66,14 +68,16 @@ theorem mem_walk (ch : Nat → List Nat) (key : Nat → Option K) (f t c : Nat) 
 
 /-- walking a keyless node that was yielded before yields it again -/
 theorem dup_keyless_walk (ch : Nat → List Nat) (key : Nat → Option K) (f c : Nat) {s : WalkSt K}
-    (hk : key c = none) (hin : c ∈ s.outs.toList.map (·.node)) : DupN (walk ch key (f+1) c s).1 := by
+    (hk : key c = none) (hq : q c = true) (hin : c ∈ s.outs.toList.map (·.node)) :
+    DupN q (walk ch key (f+1) c s).1 := by
   obtain ⟨mid, o, ho, e⟩ := walk_keyless_yields ch key f c s hk
   unfold DupN
   rw [e]
-  simp only [List.map_append, List.map_cons, List.map_nil, ho]
+  simp only [List.map_append, List.map_cons, List.map_nil, ho, List.filter_append]
   intro hn
   rw [List.append_assoc] at hn
-  have := (List.nodup_append.mp hn).2.2 c hin c (by simp)
+  have := (List.nodup_append.mp hn).2.2 c (List.mem_filter.mpr ⟨hin, hq⟩) c
+    (List.mem_append_right _ (List.mem_filter.mpr ⟨by simp, hq⟩))
   exact this rfl
 
 theorem walkBefore_keyless (key : Nat → Option K) (c : Nat) (s : WalkSt K) (hk : key c = none) :
@@ -83,8 +87,8 @@ theorem walkBefore_keyless (key : Nat → Option K) (c : Nat) (s : WalkSt K) (hk
 /-- a walk one of whose (first two) children is a keyless node that was yielded before yields that
 node again -/
 theorem dup_of_keyless_child (ch : Nat → List Nat) (key : Nat → Option K) (f t c : Nat) (s : WalkSt K)
-    (hc : c ∈ (ch t).take 2) (hk : key c = none) (hin : c ∈ s.outs.toList.map (·.node)) :
-    DupN (walk ch key (f+2) t s).1 := by
+    (hc : c ∈ (ch t).take 2) (hk : key c = none) (hq : q c = true) (hin : c ∈ s.outs.toList.map (·.node)) :
+    DupN q (walk ch key (f+2) t s).1 := by
   rw [walk_succ]
   have hb := walkBefore_keyless key c s hk
   match hch : ch t with
@@ -94,27 +98,27 @@ theorem dup_of_keyless_child (ch : Nat → List Nat) (key : Nat → Option K) (f
     simp at hc
     subst hc
     simp only [hb]
-    exact dup_fin key t _ _ (dup_keyless_walk ch key f c hk hin)
+    exact dup_fin key t _ _ (dup_keyless_walk ch key f c hk hq hin)
   | l :: r :: rest =>
     rw [hch] at hc
     simp at hc
     rcases hc with rfl | rfl
     · simp only [hb]
       cases walkBefore key r s with
-      | some ri => exact dup_fin key t _ _ (dup_keyless_walk ch key f c hk hin)
-      | none => exact dup_fin key t _ _ (dup_walk ch key _ r (dup_keyless_walk ch key f c hk hin))
+      | some ri => exact dup_fin key t _ _ (dup_keyless_walk ch key f c hk hq hin)
+      | none => exact dup_fin key t _ _ (dup_walk ch key _ r (dup_keyless_walk ch key f c hk hq hin))
     · simp only [hb]
       cases walkBefore key l s with
-      | some li => exact dup_fin key t _ _ (dup_keyless_walk ch key f c hk hin)
-      | none => exact dup_fin key t _ _ (dup_keyless_walk ch key f c hk (mem_walk ch key _ l c hin))
+      | some li => exact dup_fin key t _ _ (dup_keyless_walk ch key f c hk hq hin)
+      | none => exact dup_fin key t _ _ (dup_keyless_walk ch key f c hk hq (mem_walk ch key _ l c hin))
 
 end single
 
 section
-variable {φ : Nat → Nat} {D : Nat → Prop} {ch1 ch2 : Nat → List Nat}
+variable {φ : Nat → Nat} {D : Nat → Prop} {q : Nat → Bool} {ch1 ch2 : Nat → List Nat}
   {key1 : Nat → Option K1} {key2 : Nat → Option K2} {rk1 rk2 : Nat → Nat}
 
-theorem before_simK (H : SimHypK φ D ch1 ch2 key1 key2 rk1 rk2) {s1 : WalkSt K1} {s2 : WalkSt K2}
+theorem before_simK (H : SimHypK φ D q ch1 ch2 key1 key2 rk1 rk2) {s1 : WalkSt K1} {s2 : WalkSt K2}
     (h : SimK φ D key1 key2 s1 s2) (c : Nat) (hc : D c) :
     walkBefore key1 (φ c) s1 = walkBefore key2 c s2 ∨
       (key2 c = none ∧ c ∈ s2.outs.toList.map (·.node)) := by
@@ -129,11 +133,11 @@ theorem before_simK (H : SimHypK φ D ch1 ch2 key1 key2 rk1 rk2) {s1 : WalkSt K1
     | none => left; rfl
     | some i => right; exact ⟨by simp, h.seenN c hc h2 k1 h1 (by rw [hs]; rfl)⟩
 
-theorem fin_simK (H : SimHypK φ D ch1 ch2 key1 key2 rk1 rk2) {s1 : WalkSt K1} {s2 : WalkSt K2}
+theorem fin_simK (H : SimHypK φ D q ch1 ch2 key1 key2 rk1 rk2) {s1 : WalkSt K1} {s2 : WalkSt K2}
     (h : SimK φ D key1 key2 s1 s2) (t : Nat) (ht : D t) (li ri : Option Nat) :
     (SimK φ D key1 key2 (walkFin key1 (φ t) li ri s1).1 (walkFin key2 t li ri s2).1 ∧
       (walkFin key1 (φ t) li ri s1).2 = (walkFin key2 t li ri s2).2) ∨
-    DupN (walkFin key2 t li ri s2).1 := by
+    DupN q (walkFin key2 t li ri s2).1 := by
   obtain ⟨k1, h1⟩ := Option.isSome_iff_exists.mp (H.total1 t ht)
   have hdom : ∀ o ∈ (s2.outs.push ⟨t, s2.idx, li, ri⟩).toList, D o.node := by
     intro o ho
@@ -194,18 +198,20 @@ theorem fin_simK (H : SimHypK φ D ch1 ch2 key1 key2 rk1 rk2) {s1 : WalkSt K1} {
     | some i =>
       right
       have hin := h.seenN t ht h2 k1 h1 (by rw [hs]; rfl)
+      have hq := H.klq t ht h2
       unfold DupN
-      simp only [Array.toList_push, List.map_append, List.map_cons, List.map_nil]
+      simp only [Array.toList_push, List.map_append, List.map_cons, List.map_nil, List.filter_append]
       intro hn
-      exact (List.nodup_append.mp hn).2.2 t hin t (by simp) rfl
+      exact (List.nodup_append.mp hn).2.2 t (List.mem_filter.mpr ⟨hin, hq⟩) t
+        (List.mem_filter.mpr ⟨by simp, hq⟩) rfl
 
 /-- **simulation, keyless nodes on the right**: lockstep, or a node is yielded twice on the right -/
-theorem walk_simK (H : SimHypK φ D ch1 ch2 key1 key2 rk1 rk2) :
+theorem walk_simK (H : SimHypK φ D q ch1 ch2 key1 key2 rk1 rk2) :
     ∀ (f2 f1 t : Nat) (s1 : WalkSt K1) (s2 : WalkSt K2), D t → rk1 (φ t) < f1 → rk2 t < f2 →
       SimK φ D key1 key2 s1 s2 →
       (SimK φ D key1 key2 (walk ch1 key1 f1 (φ t) s1).1 (walk ch2 key2 f2 t s2).1 ∧
         (walk ch1 key1 f1 (φ t) s1).2 = (walk ch2 key2 f2 t s2).2) ∨
-      DupN (walk ch2 key2 f2 t s2).1 := by
+      DupN q (walk ch2 key2 f2 t s2).1 := by
   intro f2
   induction f2 with
   | zero => intro f1 t s1 s2 _ _ h; omega
@@ -220,7 +226,7 @@ theorem walk_simK (H : SimHypK φ D ch1 ch2 key1 key2 rk1 rk2) :
       obtain ⟨c, hc, hkc, hin⟩ := hdiv
       have := hk2 c (List.mem_of_mem_take hc)
       obtain ⟨f2, rfl⟩ : ∃ g, f2 = g + 1 := ⟨f2 - 1, by omega⟩
-      exact dup_of_keyless_child ch2 key2 f2 t c s2 hc hkc hin
+      exact dup_of_keyless_child ch2 key2 f2 t c s2 hc hkc (H.klq c (hcl c (List.mem_of_mem_take hc)) hkc) hin
     have hbef : ∀ c ∈ (ch2 t).take 2, walkBefore key1 (φ c) s1 = walkBefore key2 c s2 := by
       intro c hc
       rcases before_simK H h c (hcl c (List.mem_of_mem_take hc)) with e | ⟨e1, e2⟩
@@ -231,7 +237,7 @@ theorem walk_simK (H : SimHypK φ D ch1 ch2 key1 key2 rk1 rk2) :
         SimK φ D key1 key2 s1' s2' →
         (SimK φ D key1 key2 (walkFin key1 (φ t) li ri s1').1 (walkFin key2 t li ri s2').1 ∧
           (walkFin key1 (φ t) li ri s1').2 = (walkFin key2 t li ri s2').2) ∨
-        DupN (walkFin key2 t li ri s2').1 := fun s1' s2' li ri hs => fin_simK H hs t ht li ri
+        DupN q (walkFin key2 t li ri s2').1 := fun s1' s2' li ri hs => fin_simK H hs t ht li ri
     rw [walk_succ, walk_succ, H.ch t ht]
     match hc : ch2 t with
     | [] => simp only [List.map_nil]; exact finish s1 s2 none none h
